@@ -404,7 +404,6 @@ def check_C05(rep):
     run3 = h3_stage(rep)
     if run3 is not None:
         rep.notes["dsl_parsers"] = h3_rule_analysis(rep, run3, ["TP", "RP"], "rule-precedence")
-        h3_tables_and_runs(rep, run3, tables=True, runs=True)
     rep.cov["distinct_nontrivial"] = nontriv
     rep.cov["traces_validated_against_impl"] = len(run.real)
     rep.cov["rule"] = "grammars with shift/reduce conflicts under random precedence/associativity assignments (terms: -2..3, all three associativities; explicit rule precedences incl. 0 and negatives), among them a family of operator grammars (1-3 binary operators, atom, optional parentheses / unary operator): every S/R cell of the real table is compared with the documented rule evaluated on the precedence data; every real table without R/R cell must pass validate_resolved (kernel-checked, the hypothesis of C05_grouping); every tree the real parser returns on these grammars is checked node by node for grouping by the documented rule; non-trivial = distinct (grammar, assignment) with at least one S/R cell"
@@ -622,8 +621,12 @@ def h3_tables_and_runs(rep, run, tables=True, runs=True):
         if tables and (r["states"] != m["states"] or r["rows"] != m["rows"]):
             rep.tie_broken(f"correspondence H3/table: parser {gid}: item sets or table built by the real constructor differ from the model's")
         if runs:
-            for j, (a, b) in enumerate(zip(r["inputs"], m["inputs"])):
-                if a != b: rep.tie_broken(f"correspondence H3/run: parser {gid} input {j}: result, context log or trace differ from the model's"); break
+            # runs are compared with the DRIVER mirror run on the real grammar_info, tables and lexer automaton (a change in the
+            # generator, the rule analysis or the automaton builder does not disturb properties about the driver)
+            mrt = run.model_rt.get(gid)
+            if mrt is None: rep.tie_broken(f"correspondence H3: no driver-mirror block for parser {gid}"); continue
+            for j, (a, b) in enumerate(zip(r["inputs"], mrt["inputs"])):
+                if a != b: rep.tie_broken(f"correspondence H3/run: parser {gid} input {j}: result, context log or trace of the real driver differ from the driver mirror's (on the real tables and lexer automaton)"); break
 
 def h3_token_oracle(rep, run3, what):
     """H3 programs use the GENERATED lexer over real char/string/regex terms: the terms shifted or discarded (name, lexeme,
@@ -1009,15 +1012,27 @@ def check_C07(rep):
             if base == "NONE": nontriv += 1
     run3 = h3_stage(rep)
     if run3 is not None:
-        # parser 0 of every generated program is a constexpr object, the others are constructed at run time: both kinds must
-        # equal the model's construction (tables, automaton) and behave alike
-        h3_tables_and_runs(rep, run3, tables=True, runs=True)
+        # parser 0 of every generated program is a constexpr object and is also constructed at run time from the same expression:
+        # grammar_info, item sets, table, lexer automaton, diagnostics and every parse (result, context log, both stream texts)
+        # of the two REAL objects must be identical
+        ntw = 0
         for gid in sorted(run3.real):
-            r = run3.real[gid]; m = run3.model.get(gid)
-            if m is not None and r["dfa"] != m["dfa"]: rep.tie_broken(f"correspondence H3/lexer-automaton: parser {gid}: lexer_sm built by the real constructor differs from the model's create_lexer")
+            if not run3.meta[gid].get("constexpr"): continue
+            a = run3.real[gid]; b = run3.twin.get(gid)
+            if b is None: rep.tie_broken(f"H3: the run-time twin of constexpr parser {gid} printed no block"); continue
+            ntw += 1
+            for what in ("gi", "states", "rows", "dfa", "diag"):
+                if a.get(what) != b.get(what):
+                    rep.fail(kind="constexpr-constructed-parser-differs-from-the-run-time-constructed-one", parser=gid, what=what, grammar={k: run3.meta[gid][k] for k in ("nts", "root", "rules")}, terms=[bytes(t["data"]).decode("latin1") for t in run3.meta[gid]["terms"]])
+                    break
+            for j, (x, y) in enumerate(zip(a["inputs"], b["inputs"])):
+                rep.cov["evaluations"] += 1
+                if x != y:
+                    rep.fail(kind="parse-by-constexpr-constructed-parser-differs-from-run-time-constructed-one", parser=gid, input_index=j, constexpr_result=x["res"][:120], run_time_result=y["res"][:120]); break
+        rep.notes["constexpr_twins_compared"] = ntw
     known_D8(rep)
     rep.cov["distinct_nontrivial"] = nontriv
-    rep.cov["rule"] = "constexpr_agree.cpp compiled by g++ AND clang++: static_assert on constant-evaluated parses of accepted, syntactically wrong, lexically wrong and recovering inputs, compared at run time through cstring/string/string_view buffers and through a parser constructed at run time; every H1 input through three buffer kinds; H3 programs: one constexpr-constructed parser per program next to run-time-constructed ones, tables and automata compared with the model's construction. Non-trivial = rejected input compared across buffers."
+    rep.cov["rule"] = "constexpr_agree.cpp compiled by g++ AND clang++: static_assert on constant-evaluated parses of accepted, syntactically wrong, lexically wrong and recovering inputs, compared at run time through cstring/string/string_view buffers and through a parser constructed at run time; every H1 input through three buffer kinds; H3 programs: one constexpr-constructed parser per program and the same expression constructed at run time, all dumps and all parses of the two real objects compared. Non-trivial = rejected input compared across buffers."
     rep.cov["samples"] = [{"program": "harness/fixed/constexpr_agree.cpp", "compilers": ["g++", "clang++"], "ok": [ok1, ok2]}]
     return rep
 
